@@ -126,6 +126,16 @@ def run(ctx):
                     'the referrer is registered in the destination under a different string (%s) than the text written into the reference (%s)' % (sorted(kn), sorted(wn)), mf.where(pos),
                     sample={'fn': 'move_element_full', 'obligation': 'add_reference_origin(key) and set_character_data(text) derive from the same variable', 'variable': sorted(kn & wn)})
 
+    # the source model forgets the reference under the text it HAD: the key handed to remove_reference_origin is never a rewritten string
+    from c07 import all_sources
+    for fn_ in ('ElementRaw::move_element_full', 'ElementRaw::move_element_local'):
+        bb = P.get(fn_)
+        for pos, t in bb.iter_calls():
+            if (callee_of(t) or '').endswith('remove_reference_origin'):
+                nm, cs, _k = all_sources(bb, t['args'][1], depth=16)
+                C.check(not any(c.endswith('fmt::format') or c.endswith('::format') for c in cs), 'C05-PAIR-origins', '%s|deregistered-key-is-the-old-text' % fn_,
+                        '%s removes a referrer under a rewritten (new) reference text: the source model looks under a key it never had and keeps the entry of an element that has left it' % fn_, bb.where(pos),
+                        sample={'fn': fn_, 'key': 'text of the reference before the move'})
     # ---- subtree insert / remove -----------------------------------------------------------------
     cc = P.get('ElementRaw::create_copied_sub_element_inner')
     ins = [o['pos'] for o in E.content_ops(cc) if o['kind'] == 'insert' and o['item'] == 'Element']
